@@ -329,7 +329,7 @@ def jobs(tier):
     if not q:
         js += [job_rankings(4, 2), job_rankings(3, 3), job_rankings(4, 3)]
     for (n, lv, w, tr) in ([(3, 2, None, False), (3, 2, 1, True)] if q else
-                           [(3, 2, None, False), (3, 2, 1, True), (3, 2, None, True), (4, 2, 2, False), (4, 2, None, True), (4, 2, 1, False)]):
+                           [(3, 2, None, False), (3, 2, 1, True), (3, 2, None, True), (4, 2, 2, False), (4, 2, 2, True), (4, 2, 1, False)]):
         js.append(job_gauc(n, lv, w, tr))
     cfg = [((2, 2), 0.5, 2.0, None, False), ((2, 2), 0.5, 2.0, 1.0, True)] if q else \
           [((2, 2), 0.5, 2.0, None, False), ((2, 2), 0.5, 2.0, 1.0, True), ((2, 2), 0.5, 2.0, None, True), ((2, 2), 0.5, 2.0, 0.5, False),
